@@ -54,6 +54,7 @@ var zooTypes = []reflect.Type{
 	reflect.TypeOf(za.Overlap{}), reflect.TypeOf(za.OverlapEmb{}), reflect.TypeOf(za.Times{}),
 	reflect.TypeOf(xv1.Entry{}), reflect.TypeOf(yv1.Invoice{}), reflect.TypeOf(xv1.Entry{}), reflect.TypeOf(yv1.Invoice{}),
 	reflect.TypeOf(za.EmbTag{}), reflect.TypeOf(za.EmbTag{}),
+	reflect.TypeOf(za.Holder{}), reflect.TypeOf(za.Holder{}),
 }
 
 var structOfFieldTypes = []reflect.Type{
@@ -269,6 +270,38 @@ func fill(t *rapid.T, rv reflect.Value, depth int) {
 		fill(t, p.Elem(), depth-1)
 		rv.Set(p)
 	case reflect.Struct:
+		if rv.Type() == reflect.TypeOf(za.Holder{}) {
+			h := za.Holder{}
+			fill(t, reflect.ValueOf(&h.First).Elem(), 1)
+			pick := func(label string) any {
+				switch sim.Intn(t, 4, label) {
+				case 1:
+					in := &za.HFirst{}
+					fill(t, reflect.ValueOf(in).Elem(), 1)
+					return in
+				case 2:
+					e := &za.HMid{}
+					fill(t, reflect.ValueOf(e).Elem(), 1)
+					return e
+				case 3:
+					it := &za.HLast{}
+					fill(t, reflect.ValueOf(it).Elem(), 1)
+					return it
+				}
+				return nil
+			}
+			h.Any, h.Any2 = pick("hold1"), pick("hold2")
+			if sim.Bool(t, "holdmid") {
+				h.Mid = []za.HMid{{}}
+				fill(t, reflect.ValueOf(&h.Mid[0]).Elem(), 1)
+			}
+			if sim.Bool(t, "holdlast") {
+				h.Last = &za.HLast{}
+				fill(t, reflect.ValueOf(h.Last).Elem(), 1)
+			}
+			rv.Set(reflect.ValueOf(h))
+			return
+		}
 		if rv.Type() == timeType {
 			// UTC instants with nanoseconds (the default time encoding is nanoseconds since the epoch)
 			rv.Set(reflect.ValueOf(c16Times[sim.Intn(t, len(c16Times), "time")]))
